@@ -647,7 +647,9 @@ func EqC(desc string, a, b VP) CP {
 func NeqC(desc string, a, b VP) CP { return NotC(EqC(desc, a, b)) }
 
 // NotC: the fact is the negation of p.
-func NotC(p CP) CP {
+func NotC(p CP) CP { return notC(p) }
+
+func notC(p CP) CP {
 	return CP{p.Desc, func(c ssa.Value) (bool, bool) {
 		ok, side := p.Match(c)
 		return ok, !side
@@ -698,7 +700,30 @@ func LtC(desc string, a, b VP) CP {
 }
 
 // LeC: the fact "a <= b".
-func LeC(desc string, a, b VP) CP { return NotC(LtC(desc, b, a)) }
+// `a == b` (true edge) and `a != b` (false edge) establish it too, so LeC/GeC are one-way facts:
+// never wrap them in NotC.
+func GeC(desc string, a, b VP) CP { return LeC(desc, b, a) }
+
+func LeC(desc string, a, b VP) CP {
+	lt := notC(LtC(desc, b, a))
+	return CP{desc, func(c ssa.Value) (bool, bool) {
+		if m, side := lt.Match(c); m {
+			return m, side
+		}
+		c, flip := stripNot(c)
+		bo, ok := c.(*ssa.BinOp)
+		if !ok || !(a(bo.X) && b(bo.Y) || a(bo.Y) && b(bo.X)) {
+			return false, false
+		}
+		switch bo.Op {
+		case token.EQL:
+			return true, !flip
+		case token.NEQ:
+			return true, flip
+		}
+		return false, false
+	}}
+}
 
 // Guard decides "every path from entry (or from `from` if non-nil) to target
 // passes an edge establishing one of the alternative facts alts". Returns true
@@ -925,4 +950,30 @@ func EdgeGuarded(fn *ssa.Function, from ssa.Instruction, pred, succ *ssa.BasicBl
 		}
 	}
 	return false
+}
+
+// NormLess reads a comparison as `lo < hi` (strict) or `lo <= hi`, whichever way it was written
+// (a < b, b > a, !(a >= b), …).
+func NormLess(v ssa.Value) (lo, hi ssa.Value, strict bool, ok bool) {
+	c, flip := stripNot(Resolve1(v))
+	bo, isB := c.(*ssa.BinOp)
+	if !isB {
+		return nil, nil, false, false
+	}
+	switch bo.Op {
+	case token.LSS:
+		lo, hi, strict = bo.X, bo.Y, true
+	case token.GTR:
+		lo, hi, strict = bo.Y, bo.X, true
+	case token.LEQ:
+		lo, hi, strict = bo.X, bo.Y, false
+	case token.GEQ:
+		lo, hi, strict = bo.Y, bo.X, false
+	default:
+		return nil, nil, false, false
+	}
+	if flip { // !(lo < hi) ≡ hi <= lo ; !(lo <= hi) ≡ hi < lo
+		lo, hi, strict = hi, lo, !strict
+	}
+	return lo, hi, strict, true
 }
